@@ -46,14 +46,15 @@ def levelsOK (lv : List (String × List String × Bool)) : Bool :=
 theorem grammar_levels_agree_with_C : levelsOK Gen.exprLevels = true ∧ Gen.unaryOnAtomsOnly = true := by
   decide
 
-/-- An out-of-range index reads 0 (bounds-checked indexing), whatever the index expression. -/
+/-- An index outside the current length reads 0 (bounds-checked indexing), whatever the index
+    expression. -/
 theorem index_oob_zero (ρ : Env) (hs : ρ.unsafeIdx = false) (i : Nat) (e : IExpr) (iv : CVal)
     (he : eval ρ e = some iv)
-    (hoob : ¬ (0 ≤ (CTy.usual iv.ty CTy.i32).wrap iv.v ∧ (CTy.usual iv.ty CTy.i32).wrap iv.v < ρ.size i)) :
+    (hoob : ¬ (0 ≤ (CTy.usual iv.ty CTy.i32).wrap iv.v ∧ (CTy.usual iv.ty CTy.i32).wrap iv.v < (ρ.lenVal i).v)) :
     eval ρ (.idx i e) = some ⟨CTy.i32, 0⟩ := by
   simp only [eval, he, hs, Bool.false_eq_true, if_false]
   have : (decide (0 ≤ (CTy.usual iv.ty CTy.i32).wrap iv.v) &&
-      decide ((CTy.usual iv.ty CTy.i32).wrap iv.v < ↑(ρ.size i))) = false := by
+      decide ((CTy.usual iv.ty CTy.i32).wrap iv.v < (ρ.lenVal i).v)) = false := by
     simp only [Bool.and_eq_false_iff, decide_eq_false_iff_not]
     by_cases h0 : 0 ≤ (CTy.usual iv.ty CTy.i32).wrap iv.v
     · right; exact fun h => hoob ⟨h0, h⟩
